@@ -161,6 +161,10 @@ func runOnceOpt(t *testing.T, sc *Scenario, tape *Tape, keepLog bool, dir *direc
 		tape.Phase = "sched"
 		w.S.Quiesce()
 		w.RunMain()
+		if _, adv := w.canAdvance(); w.lockStuck || (!adv && len(w.enabled()) == 0 && w.lockBlocked()) {
+			// a deadlock: report it before anything else touches the stack
+			w.CheckNoDeadlock()
+		}
 		if sc.Settle != nil && !w.stopNow {
 			w.FaultsOn = false
 			w.Drain()
